@@ -403,7 +403,7 @@ func (r *Report) writeReplay(dir string, v *Verdict) (string, bool) {
 	rf := replayFile{Property: r.Prop, Obligation: v.Ob.Name, Kind: v.Ob.Kind, Clause: v.Ob.Src, Pos: v.Ob.Pos, Status: v.Status,
 		SMT: v.SMTPath, Runs: v.Runs, Model: v.Model, Values: v.Values}
 	reproduced := false
-	if v.Status == "failed" && v.Model != "" {
+	if (v.Status == "failed" || v.Candidate) && v.Model != "" {
 		res := TryReplay(r, v)
 		rf.Replay = res
 		if res != nil && res.Reproduced {
